@@ -22,6 +22,9 @@
 //	callpanics  calls of library functions that panic on bad arguments:
 //	            AEAD Open/Seal (nonce length), Scalar Div/Inv (zero), rand.Int (max <= 0)
 //
+// close and mapwrite sites carry structural facts instead of conditions: "defer" (the close is a
+// deferred call), "made:x" (the channel / map x is created by make or a literal in the same function).
+//
 // Guards: conditions that textually govern the site and mention its operand
 // (len(a), the index text, "p == nil" / "p != nil", the divisor, the make length):
 //
@@ -107,6 +110,7 @@ var notReach = map[string]string{
 	"dkg.pdkg.GetGroupIDs":                      "local accessor",
 	"dkg.pdkg.GetGroupPublicPoly":               "local accessor",
 	"dkg.pdkg.GroupDissolve":                    "local accessor",
+	"dkg.stampSender":                           "writes a field of the message Loop just received (non-nil by the type switch); no peer-indexed access",
 	"dkg.fanOut":                                "channel plumbing (C14)",
 	"dkg.mergeErrors":                           "channel plumbing (C14)",
 	"dkg.genPub":                                "local key generation",
@@ -219,6 +223,8 @@ type walker struct {
 	ptrMap    map[string]bool   // locals that are maps with pointer values
 	nilLocal  map[string]string // local := m[k] of such a map (nil when the key is absent) → text of m[k]
 	nilCmp    map[string]bool   // identifiers the function compares with nil: the code itself treats them as nil-able
+	madeHere  map[string]bool   // identifiers assigned from make(chan …) / make(map …) / a map literal in this function
+	inDefer   bool
 	anchored  map[int]bool
 	conds     *[][2]string
 	sites     *[]site
@@ -466,7 +472,8 @@ func (w *walker) stmt(s ast.Stmt, gs []guard) []guard {
 			if ie, ok := r.(*ast.IndexExpr); ok && len(x.Lhs) == 1 && w.isMap(ie.X) && x.Tok == token.DEFINE { // v := m[k]: zero value when absent
 				w.expr(ie.X, gs)
 				w.expr(ie.Index, gs)
-				w.add("mapzero", ie, gs, nil)
+				// the read itself cannot fail; what is done with a zero value is listed at its uses
+				*w.sites = append(*w.sites, site{fn: w.fn, kind: "mapzero", expr: w.t(ie), guard: "read"})
 				if mid, ok := ie.X.(*ast.Ident); ok && w.ptrMap[mid.Name] {
 					if lid, ok := x.Lhs[0].(*ast.Ident); ok {
 						w.nilLocal[lid.Name] = w.t(ie) // a nil pointer when the key is absent
@@ -481,7 +488,11 @@ func (w *walker) stmt(s ast.Stmt, gs []guard) []guard {
 			if ie, ok := l.(*ast.IndexExpr); ok && w.isMap(ie.X) {
 				w.expr(ie.X, gs)
 				w.expr(ie.Index, gs)
-				w.add("mapwrite", ie, gs, nil)
+				g := ""
+				if id, ok := ie.X.(*ast.Ident); ok && w.madeHere[id.Name] {
+					g = "made:" + id.Name // the map is created by make / a literal in this function
+				}
+				*w.sites = append(*w.sites, site{fn: w.fn, kind: "mapwrite", expr: w.t(ie), guard: g})
 				continue
 			}
 			w.expr(l, gs)
@@ -498,7 +509,9 @@ func (w *walker) stmt(s ast.Stmt, gs []guard) []guard {
 			w.expr(r, gs)
 		}
 	case *ast.DeferStmt:
+		w.inDefer = true
 		w.expr(x.Call, gs)
+		w.inDefer = false
 	case *ast.GoStmt:
 		w.expr(x.Call, gs)
 	case *ast.LabeledStmt:
@@ -770,7 +783,17 @@ func (w *walker) call(c *ast.CallExpr, gs []guard) {
 			}
 			return
 		case "close":
-			w.add("close", c, gs, nil)
+			// structural facts: closed in a defer (runs once when the goroutine returns) / the channel is created by this function
+			var facts []string
+			if w.inDefer {
+				facts = append(facts, "defer")
+			}
+			if len(c.Args) == 1 {
+				if id, ok := c.Args[0].(*ast.Ident); ok && w.madeHere[id.Name] {
+					facts = append(facts, "made:"+id.Name)
+				}
+			}
+			*w.sites = append(*w.sites, site{fn: w.fn, kind: "close", expr: w.t(c), guard: strings.Join(facts, "; ")})
 			for _, a := range c.Args {
 				w.expr(a, gs)
 			}
@@ -811,6 +834,37 @@ func (w *walker) call(c *ast.CallExpr, gs []guard) {
 	}
 }
 
+// madeIn: identifiers that fd assigns from make(chan …), make(map …) or a map literal
+func madeIn(fd *ast.FuncDecl) map[string]bool {
+	m := map[string]bool{}
+	isMake := func(e ast.Expr) bool {
+		switch v := e.(type) {
+		case *ast.CallExpr:
+			if f, ok := v.Fun.(*ast.Ident); ok && f.Name == "make" && len(v.Args) > 0 {
+				switch v.Args[0].(type) {
+				case *ast.ChanType, *ast.MapType:
+					return true
+				}
+			}
+		case *ast.CompositeLit:
+			_, ok := v.Type.(*ast.MapType)
+			return ok
+		}
+		return false
+	}
+	ast.Inspect(fd.Body, func(n ast.Node) bool {
+		if a, ok := n.(*ast.AssignStmt); ok && len(a.Lhs) == len(a.Rhs) {
+			for i, l := range a.Lhs {
+				if id, ok := l.(*ast.Ident); ok && isMake(a.Rhs[i]) {
+					m[id.Name] = true
+				}
+			}
+		}
+		return true
+	})
+	return m
+}
+
 // nilCompared: the identifiers (other than err) that fd compares with nil
 func nilCompared(fd *ast.FuncDecl) map[string]bool {
 	m := map[string]bool{}
@@ -829,6 +883,31 @@ func nilCompared(fd *ast.FuncDecl) map[string]bool {
 		return true
 	})
 	return m
+}
+
+// guardClass: what the recorded guard text amounts to for a site of this kind
+func guardClass(kind, guard string) string {
+	switch {
+	case guard == "":
+		return "none"
+	case (kind == "typeassert" || kind == "mapzero") && guard == "ok":
+		return "ok"
+	case kind == "mapzero" && guard == "read":
+		return "read" // `v := m[k]`: a map read never panics; uses of v are sites of their own
+	case kind == "mapzero":
+		return "cmp"
+	case kind == "close" && strings.HasPrefix(guard, "defer; made:"):
+		return "defer-made"
+	case kind == "close":
+		return "cmp"
+	case kind == "mapwrite" && strings.HasPrefix(guard, "made:"):
+		return "made"
+	case kind == "deref" || kind == "ifacenil" || kind == "ifaceslot":
+		return "nil" // guardNil only accepts `operand == nil` / `operand != nil`
+	case (kind == "index" || kind == "slice") && (strings.Contains(guard, "len(") || strings.Contains(guard, "range:")):
+		return "len"
+	}
+	return "cmp"
 }
 
 func recvName(fd *ast.FuncDecl) string {
@@ -945,7 +1024,7 @@ func run(repo string) (string, error) {
 			delete(want, q)
 			listed[pkg+"."+q] = true
 			w := &walker{fset: fset, pkg: pkg, fn: pkg + "." + q, ptrField: ptrField, ifcField: ifcField, mapField: mapField,
-				mapLocal: map[string]bool{}, ptrParam: map[string]bool{}, seenParam: map[string]bool{}, alias: map[string]string{}, ptrMap: map[string]bool{}, nilLocal: map[string]string{}, nilCmp: nilCompared(fd), sites: &sites, calls: calls, anchored: anchored, conds: &conds}
+				mapLocal: map[string]bool{}, ptrParam: map[string]bool{}, seenParam: map[string]bool{}, alias: map[string]string{}, ptrMap: map[string]bool{}, nilLocal: map[string]string{}, nilCmp: nilCompared(fd), madeHere: madeIn(fd), sites: &sites, calls: calls, anchored: anchored, conds: &conds}
 			for _, p := range fd.Type.Params.List {
 				switch pt := p.Type.(type) {
 				case *ast.MapType:
@@ -984,7 +1063,7 @@ func run(repo string) (string, error) {
 	sort.Strings(unlisted)
 	// stable, position-independent keys: duplicates get #2, #3 … in source order
 	cnt := map[string]int{}
-	type row struct{ key, kind, guard string }
+	type row struct{ key, kind, guard, cls string }
 	var rows []row
 	for _, s := range sites {
 		k := s.fn + "|" + s.kind + "|" + s.expr
@@ -992,19 +1071,19 @@ func run(repo string) (string, error) {
 		if cnt[k] > 1 {
 			k = fmt.Sprintf("%s#%d", k, cnt[k])
 		}
-		rows = append(rows, row{k, s.kind, s.guard})
+		rows = append(rows, row{k, s.kind, s.guard, guardClass(s.kind, s.guard)})
 	}
 	sort.Slice(rows, func(i, j int) bool { return rows[i].key < rows[j].key })
 	var b strings.Builder
 	b.WriteString(ex.Header("PanicSites", "the C12 anchored files (see go/extract/panicsites)"))
-	b.WriteString("namespace Dos.Gen.PanicSites\n\nstructure Site where\n  key : String\n  kind : String\n  guard : String\n  deriving Repr, DecidableEq\n\n")
+	b.WriteString("namespace Dos.Gen.PanicSites\n\nstructure Site where\n  key : String\n  kind : String\n  guard : String\n  /-- what the guard text amounts to: nil (nil comparison of the operand), len (length / range bound of the indexed value),\n  ok (comma-ok form), defer-made (deferred close of a channel made here), made (map made here), cmp (another comparison), none -/\n  cls : String\n  deriving Repr, DecidableEq\n\n")
 	b.WriteString("def sites : List Site := [\n")
 	for i, r := range rows {
 		sep := ","
 		if i == len(rows)-1 {
 			sep = ""
 		}
-		fmt.Fprintf(&b, "  ⟨%s, %s, %s⟩%s\n", ex.LeanStr(r.key), ex.LeanStr(r.kind), ex.LeanStr(r.guard), sep)
+		fmt.Fprintf(&b, "  ⟨%s, %s, %s, %s⟩%s\n", ex.LeanStr(r.key), ex.LeanStr(r.kind), ex.LeanStr(r.guard), ex.LeanStr(r.cls), sep)
 	}
 	b.WriteString("]\n\n/-- functions of the anchored files whose name is called from the reach set but which are neither listed as reachable nor as not-reachable -/\n")
 	b.WriteString("def unlisted : List String := [")
